@@ -76,6 +76,9 @@ pub enum Q {
     TagOn(&'static str),
     AllSubtypes(&'static str),
     FitsWrappers(&'static str),
+    /// n look-ups of n distinct symbols that no def names (a deployment with many custom tags):
+    /// fills both caches with n entries; the answer is a digest
+    Volume(usize),
 }
 
 /// the 10-query core (first) followed by the rest of the alphabet
@@ -118,9 +121,16 @@ pub fn queries() -> Vec<Q> {
         Q::TagOn("t1"),
         Q::AllSubtypes("a"),
         Q::FitsWrappers("b-c"),
+        // ---- not part of the history search (each call adds a thousand cache entries)
+        Q::Inheritance(""),
+        Q::Supertypes(""),
+        Q::Fits("", "a"),
+        Q::Volume(1100),
     ]
 }
 pub const CORE: usize = 10;
+/// the last EXTRA queries are used by the volume histories only
+pub const EXTRA: usize = 4;
 
 fn marker_dict(tags: &[&str]) -> Dict {
     let t: Vec<(&str, V)> = tags.iter().map(|k| (*k, V::Marker)).collect();
@@ -171,6 +181,17 @@ pub fn run_query(ns: &'static Namespace<'static>, q: &Q) -> String {
         Q::FitsWrappers(s) => {
             let y = Symbol::from(*s);
             format!("{}{}{}{}", ns.fits_marker(&y), ns.fits_val(&y), ns.fits_choice(&y), ns.fits_entity(&y))
+        }
+        Q::Volume(n) => {
+            let (mut fit, mut len) = (0usize, 0usize);
+            for i in 0..*n {
+                let y = Symbol::from(format!("vol{i}").as_str());
+                if ns.fits(&y, &Symbol::from("a")) {
+                    fit += 1;
+                }
+                len += ns.inheritance(&y).len() + ns.supertypes_of(&y).len();
+            }
+            format!("fits={fit} entries={len}")
         }
         Q::HasRel(term, target) => {
             let r = |id: &str| V::Ref(id.into(), None);
@@ -365,7 +386,7 @@ pub fn explore_histories(mode: hooks::Mode, cold: &[String], r: &RefNs, max_stat
     let mut frontier: std::collections::VecDeque<(String, Vec<usize>)> = std::collections::VecDeque::new();
     frontier.push_back((snap_key(&empty), vec![]));
     while let Some((skey, hist)) = frontier.pop_front() {
-        for qi in 0..qs.len() {
+        for qi in 0..qs.len() - EXTRA {
             let mut h = hist.clone();
             h.push(qi);
             match with_partition(&part, || run_history(mode, &h, &part)) {
@@ -596,6 +617,15 @@ pub fn scenarios(tier: Tier) -> Vec<Scenario> {
             out.push(Scenario { warm: vec![], threads: vec![vec![a.0, a.1], vec![b.0, b.1]] });
         }
     }
+    // (a') two threads, one query each, after the volume warm-up (the caches hold 1100 entries)
+    let vol = queries().len() - 1;
+    for i in 0..CORE {
+        for j in i..CORE {
+            if tier == Tier::Thorough || j == i || j == i + 1 {
+                out.push(Scenario { warm: vec![vol], threads: vec![vec![i], vec![j]] });
+            }
+        }
+    }
     // (c) three threads, one query each: all multisets of the core
     for i in 0..CORE {
         for j in i..CORE {
@@ -612,7 +642,9 @@ fn known_entries(h: &HistResult, mode_states: &BTreeMap<String, Vec<usize>>) -> 
     let _ = h;
     let mut out = BTreeSet::new();
     let part = Arc::new(partition_extreme(true));
-    for hist in mode_states.values() {
+    // ... and after the volume warm-up
+    let vol = vec![queries().len() - 1];
+    for hist in mode_states.values().chain(std::iter::once(&vol)) {
         if let Ok((_, snap)) = with_partition(&part, || run_history(hooks::Mode::Shim, hist, &part)) {
             for e in snap {
                 out.insert(format!("{e:?}"));
@@ -650,7 +682,7 @@ pub fn child(_tier: Tier, job: String, _start: u64, _end: u64, ctx: &mut ChildCt
 
 pub fn run(tier: Tier) -> i32 {
     let mut run = Run::new("C14", tier, "model_checking");
-    run.rule = "subject: the real Namespace code over the hook shim. C14-H (E3): breadth-first search from the cold namespace; transition = one of 36 concrete queries (supertypes_of, all_supertypes_of, inheritance, fits and its four wrappers, reflect, Reflection::fits, def_of_dict, tags, is, tag_on, implementation, protos with flattened children, all_subtypes_of, has_relationship with cyclic refs) on an 18-def scenario namespace (diamond, conjunct, entity, transitive relationship, reciprocal association, children prototypes) rebuilt by replaying the history; state = cache snapshot; to closure; every answer = cold answer = graph answer; run on the genuine DashMap (isolated child, watchdog) and on the Shim (single scheduled thread, all keys in one shard, so a self-deadlock is seen): both transition graphs must be identical. C14-S (E4+E2): scenarios (a) 2 threads x 1 query, all 55 unordered pairs of a 10-query core, from the cold state and from warm states; (b) 2 threads x 2 queries; (c) 3 threads x 1 query, all 220 multisets; for the two extreme shard partitions (thorough: every partition of the touched supertypes keys); every schedule with <= b preemptions (scheduling points: every shard-lock acquisition, thread start/exit). Oracle per execution: no deadlock, no panic, every answer equals the answer given alone, every final cache entry occurs in the sequential closure. states = cache states of C14-H + scenario configurations, transitions = history steps + schedules executed".into();
+    run.rule = "subject: the real Namespace code over the hook shim. C14-H (E3): breadth-first search from the cold namespace; transition = one of 36 concrete queries (supertypes_of, all_supertypes_of, inheritance, fits and its four wrappers, reflect, Reflection::fits, def_of_dict, tags, is, tag_on, implementation, protos with flattened children, all_subtypes_of, has_relationship with cyclic refs) on an 18-def scenario namespace (diamond, conjunct, entity, transitive relationship, reciprocal association, children prototypes) rebuilt by replaying the history; state = cache snapshot; to closure; every answer = cold answer = graph answer; run on the genuine DashMap (isolated child, watchdog) and on the Shim (single scheduled thread, all keys in one shard, so a self-deadlock is seen): both transition graphs must be identical. C14-V: every query after 1100 / 2200 look-ups of symbols no def names (volume: more entries than any fixed cache bound) still gives its cold answer. C14-S (E4+E2): scenarios (a) 2 threads x 1 query, all 55 unordered pairs of a 10-query core, from the cold state, from warm states and after the volume warm-up; (b) 2 threads x 2 queries; (c) 3 threads x 1 query, all 220 multisets; for the two extreme shard partitions (thorough: every partition of the touched supertypes keys); every schedule with <= b preemptions (scheduling points: every shard-lock acquisition, thread start/exit). Oracle per execution: no deadlock, no panic, every answer equals the answer given alone, every final cache entry occurs in the sequential closure. states = cache states of C14-H + scenario configurations, transitions = history steps + schedules executed".into();
     run.assume("DashMap's own lock is trusted; the Shim models it as a reader-preferring RW lock per shard (shared granted unless a writer holds; exclusive needs the shard free) — read from dashmap-6.1.0/src/lock.rs — and is bound to the genuine DashMap by the identical C14-H transition graphs");
     run.assume("scheduling points at lock acquisitions suffice: all shared data is reached only under those locks");
     run.assume("2 and 3 threads explored exhaustively within the preemption bound; 4-16 threads are out of reach of exhaustive exploration");
@@ -701,6 +733,31 @@ pub fn run(tier: Tier) -> i32 {
                 format!("the history search over the Shim ({} states, {} transitions, {want}) and over the genuine DashMap ({} states, {:?}) differ: the lock/shard model is not bound to the real thing", hs.states.len(), hs.transitions.len(), run.counter("real-states"), real_digest),
             );
         }
+    }
+
+    // ---- C14-V: volume. After more look-ups than any fixed cache bound one would pick (1100
+    // distinct symbols) every query still gives its cold answer, sequentially ...
+    if hs.failure.is_none() {
+        let nq = queries().len();
+        let vol = nq - 1;
+        let part = Arc::new(partition_extreme(false));
+        let l = par_for(nq - 1, |qi, local| {
+            for hist in [vec![vol, qi], vec![qi, vol, qi], vec![vol, vol, qi]] {
+                local.eval();
+                local.transitions += hist.len() as u64;
+                local.count("volume-histories");
+                match with_partition(&part, || run_history(hooks::Mode::Shim, &hist, &part)) {
+                    Err(e) => local.fail("history-panic:volume", json!({"history": hist, "backend": "shim", "volume": true}), e),
+                    Ok((answers, _)) => {
+                        let a = answers.last().unwrap();
+                        if *a != cold[qi] {
+                            local.fail("history-changes-answer:volume", json!({"history": hist, "backend": "shim", "volume": true}), format!("query {:?} after {} look-ups of other symbols answers {a:?}, cold answer {:?}", queries()[qi], 1100 * (hist.len() - 1), cold[qi]));
+                        }
+                    }
+                }
+            }
+        });
+        run.absorb(l);
     }
 
     // ---- C14-S
